@@ -15,7 +15,7 @@ REQUIRED = ["CifModel.C19_list_is_sequence", "CifModel.C19_table_is_map", "CifMo
             # operation histories (group gM, Props/C19Hist.lean)
             "CifModel.C19_history_heap", "CifModel.C19_history_owned", "CifModel.C19_history_release", "CifModel.C19_history_trace",
             "CifModel.C19_step_heap", "CifModel.C19_clone_onto_member_heap", "CifModel.C19_list_history",
-            "CifModel.C19_nested_update_exact", "CifModel.C19_nested_putP_exact"]
+            "CifModel.C19_nested_update_exact", "CifModel.C19_nested_putP_exact", "CifModel.C19_refs_distinct"]
 GEN = ["ErrCodes", "ValueCols"]
 FAMILIES = ["val", "valheap"]
 TRUSTED_BASE = [
@@ -51,9 +51,9 @@ PARTIAL = [
     "C19_history_release (releasing all slots then frees every block, each once), C19_list_history, C19_nested_update_exact "
     "(pure level). The history theorems carry no fuel hypothesis: the interpreter computes the fuel of the pointer-following heap "
     "functions from the heap (fuelOf h = 3*h.next + 9), which is proved sufficient (Rep_nodup, Rep_need, RepS.fitsAt: a footprint lists "
-    "each block once below the bump pointer). What the history theorems do NOT say: (ii) the pointer test `src == dst` of cif_value_clone is modelled as equality "
-    "of the two REFERENCES (two references designate the same object exactly when they are equal, because the blocks of "
-    "different members are disjoint — that equivalence itself is not stated as a theorem); (iii) cif_packet_create with two "
+    "each block once below the bump pointer). The pointer tests of the C (`src == dst`) are made on addresses by the heap interpretation and on references by the "
+    "pure one; C19_refs_distinct proves the two agree (different references designate different blocks). What the history theorems do "
+    "NOT say: (iii) cif_packet_create with two "
     "names for one item leaves the model state as it was (the blocks it allocated and released again are not recorded; "
     "C16_packet_create_heap_safe proves they are all released); (iv) the observations lget / mget return are not part of the "
     "history theorem (C19_members_by_reference states them for one operation); (v) allocation failures (C17) and "
